@@ -35,14 +35,20 @@ def tbl_intervals(blocks, strand):
     return iv
 
 
-def export(spec, seed=None, **kw):
+def export(spec, seed=None, ctx=None, **kw):
     coll = mkcollection(spec["obj"], chrom_parent(spec["genome"]))
     buf = io.StringIO()
     with warnings.catch_warnings():
         warnings.simplefilter("ignore")
-        collection_to_tbl([coll], buf, translation_table=TranslationTable[spec["table"]], locus_tag_prefix=spec.get("prefix"),
-                          genbank_flavor=GenbankFlavor[spec["flavor"]], locus_tag_jump_size=spec["jump"], submitter_lab_name=spec.get("lab"),
-                          random_seed=spec["seed"] if seed is None else seed, **kw)
+        args = dict(translation_table=TranslationTable[spec["table"]], locus_tag_prefix=spec.get("prefix"),
+                    genbank_flavor=GenbankFlavor[spec["flavor"]], locus_tag_jump_size=spec["jump"], submitter_lab_name=spec.get("lab"),
+                    random_seed=spec["seed"] if seed is None else seed, **kw)
+        collection_to_tbl([coll], buf, **args)
+        if ctx is not None:
+            # the same collection OBJECT written again with the same seed gives the same table
+            buf2 = io.StringIO()
+            collection_to_tbl([coll], buf2, **args)
+            ctx.true("second_export_same_file", buf2.getvalue() == buf.getvalue(), {"first": buf.getvalue()[:300], "second": buf2.getvalue()[:300]})
     return buf.getvalue()
 
 
@@ -68,7 +74,7 @@ def check_tbl(spec, ctx):
     if spec["seed"] == 0:
         ctx.label("seed0")
     try:
-        text = export(spec)
+        text = export(spec, ctx=ctx)
     except BioCantorException as e:
         mixed = any(any("cds" in t for t in gn["transcripts"]) and not all("cds" in t for t in gn["transcripts"]) for gn in genes)
         ctx.true("export_refused", mixed, repr(e)[:120])
